@@ -151,3 +151,115 @@ theorem init_valid (n : ℕ) (hn : 0 < n) :
     positivity
 
 end ModelR
+
+namespace ModelR
+open List
+
+/-- **the snapshot stored by a completed update is on the simplex, its orientation entries are in
+[-1, 1], it has `n` grains and no fraction is below the sliding floor** — for ANY vector `raw`
+(length `10 n + 9`) returned by the solver whose fraction block has a positive clipped sum. This
+composes `extract_vars` → `apply_gbs` → write-back → `extract_vars` exactly as the update does. -/
+theorem completed_update_valid (m : Mineral) (chi : ℝ) (rs : List (List ℝ)) (raw : List ℝ)
+    (hl : rs.getLast? = some raw) (hn0 : 0 < m.n) (hchi : 0 ≤ chi)
+    (hlen : raw.length = 10 * m.n + 9) (hprev : (lastA m).length = m.n)
+    (hpos : 0 < ((unpackY m.n raw).2.f.map clip0).sum) :
+    ∃ t, (updateWith m chi (some rs)).1.snaps = m.snaps ++ [t] ∧
+      t.A.length = m.n ∧ t.f.length = m.n ∧
+      t.f.sum = 1 ∧ (∀ x ∈ t.f, chi / (m.n * (1 + chi)) ≤ x) ∧ (∀ x ∈ t.f, 0 ≤ x) ∧
+      (∀ a ∈ t.A, ∀ i j, -1 ≤ a i j ∧ a i j ≤ 1) := by
+  refine ⟨(extractVars m.n (postStep chi m.n (lastA m) raw)).2, appended_snapshot m chi rs raw hl, ?_⟩
+  have hshape1 := snapshot_shape m.n raw hlen
+  have hsimp1 := fractions_simplex m.n raw hpos
+  -- the vector written back
+  have hps : postStep chi m.n (lastA m) raw
+      = packY (extractVars m.n raw).1 (applyGbs chi m.n (lastA m) (extractVars m.n raw).2) := rfl
+  set t1 := (extractVars m.n raw).2 with ht1
+  set g := applyGbs chi m.n (lastA m) t1 with hg
+  have hgA : g.A.length = m.n := by
+    rw [hg, applyGbs_length_A _ _ _ _ (by rw [hshape1.1, hshape1.2]) (by rw [hprev, hshape1.2]), hshape1.2]
+  have hgf : g.f.length = m.n := by rw [hg, applyGbs_length_f, hshape1.2]
+  have hx : extractVars m.n (postStep chi m.n (lastA m) raw) = ((extractVars m.n raw).1, extractTex g) := by
+    rw [hps]; unfold extractVars; rw [unpackY_packY m.n _ g hgA hgf]
+  have hfloor := stored_floor chi m.n (lastA m) t1 hshape1.2 hn0 hchi hsimp1.2 hsimp1.1
+  have hb := floor_bound chi m.n (lastA m) t1 hshape1.2 hn0 hchi hsimp1.2 hsimp1.1
+  have hnR : (0 : ℝ) < m.n := by exact_mod_cast hn0
+  have h0 : 0 ≤ chi / (m.n * (1 + chi)) := by positivity
+  have hgpos : ∀ x ∈ g.f, 0 ≤ x := fun x hx' => le_trans h0 (hb x hx')
+  have hlo := floored_sum_ge (chi / m.n) t1.f
+  rw [hsimp1.1] at hlo
+  have hgs : g.f.sum = 1 := renormalised chi m.n (lastA m) t1 (by linarith)
+  have hid := extract_id_on_simplex g.f g.A hgpos hgs
+  have hfeq : (extractTex g).f = g.f := hid
+  rw [hx]
+  refine ⟨by simp [extractTex, hgA], by rw [hfeq, hgf], by rw [hfeq, hgs], ?_, by rw [hfeq]; exact hgpos, ?_⟩
+  · exact hfloor
+  · intro a ha i j
+    simp only [extractTex, List.mem_map] at ha
+    obtain ⟨b, _, rfl⟩ := ha
+    exact clip_mem _
+
+end ModelR
+
+namespace ModelR
+open List
+
+/-- a stored snapshot of an `n`-grain mineral that is a valid texture as far as the code's own
+post-processing guarantees it: shapes, simplex, entry bounds -/
+def GoodSnap (n : ℕ) (t : Tex) : Prop :=
+  t.A.length = n ∧ t.f.length = n ∧ t.f.sum = 1 ∧ (∀ x ∈ t.f, 0 ≤ x) ∧ (∀ a ∈ t.A, ∀ i j, -1 ≤ a i j ∧ a i j ≤ 1)
+
+/-- what is asked of the solver for one update: if it completes, its last vector has the packed
+length and a fraction block with positive clipped sum (nothing else: values are arbitrary) -/
+def SolverOutputOk (n : ℕ) (r : Option (List (List ℝ))) : Prop :=
+  ∀ l raw, r = some l → l.getLast? = some raw →
+    raw.length = 10 * n + 9 ∧ 0 < ((unpackY n raw).2.f.map clip0).sum
+
+theorem updateWith_n (m : Mineral) (chi : ℝ) (r : Option (List (List ℝ))) : (updateWith m chi r).1.n = m.n := by
+  cases r with
+  | none => rfl
+  | some rs =>
+    cases hl : rs.getLast? with
+    | none => simp [updateWith, hl]
+    | some raw => simp [updateWith, hl]
+
+/-- **after ANY update history every stored snapshot is a valid texture** (shapes, simplex, entry
+bounds), given a valid initial history: induction over the sequence of updates, completed or
+failed, with arbitrary solver output in every update. -/
+theorem history_valid (chi : ℝ) (hchi : 0 ≤ chi) (m : Mineral) (hn0 : 0 < m.n)
+    (hne : m.snaps ≠ []) (hgood : ∀ t ∈ m.snaps, GoodSnap m.n t)
+    (rs : List (Option (List (List ℝ)))) (hrs : ∀ r ∈ rs, SolverOutputOk m.n r) :
+    (runHistory chi m rs).n = m.n ∧ (runHistory chi m rs).snaps ≠ [] ∧
+      ∀ t ∈ (runHistory chi m rs).snaps, GoodSnap m.n t := by
+  induction rs generalizing m with
+  | nil => exact ⟨rfl, hne, hgood⟩
+  | cons r rs ih =>
+    simp only [runHistory]
+    have hn' := updateWith_n m chi r
+    have hstep : (updateWith m chi r).1.snaps ≠ [] ∧ ∀ t ∈ (updateWith m chi r).1.snaps, GoodSnap m.n t := by
+      cases r with
+      | none => exact ⟨hne, hgood⟩
+      | some l =>
+        cases hl : l.getLast? with
+        | none => simpa [updateWith, hl] using ⟨hne, hgood⟩
+        | some raw =>
+          obtain ⟨hlen, hpos⟩ := hrs (some l) (by simp) l raw rfl hl
+          have hprev : (lastA m).length = m.n := by
+            unfold lastA
+            cases hg : m.snaps.getLast? with
+            | none => exact absurd (List.getLast?_eq_none_iff.mp hg) hne
+            | some t => exact (hgood t (List.mem_of_getLast? hg)).1
+          obtain ⟨t, hsn, hA, hf, hsum, _, hnn, hb⟩ := completed_update_valid m chi l raw hl hn0 hchi hlen hprev hpos
+          rw [hsn]
+          refine ⟨by simp, ?_⟩
+          intro s hs
+          rcases List.mem_append.mp hs with h | h
+          · exact hgood s h
+          · simp only [List.mem_singleton] at h
+            subst h
+            exact ⟨hA, hf, hsum, hnn, hb⟩
+    have := ih (updateWith m chi r).1 (by rw [hn']; exact hn0) hstep.1 (by rw [hn']; exact hstep.2)
+      (by rw [hn']; intro r' hr'; exact hrs r' (by simp [hr']))
+    rw [hn'] at this
+    exact this
+
+end ModelR
